@@ -27,6 +27,14 @@ inductive Acc where
   | untyped
   deriving DecidableEq, Repr, Inhabited
 
+/-- what the decorators of a method check about its positional arguments: `noPosargs`,
+`typed_pos_args(name, *req, optargs=opt)` or `typed_pos_args(name, varargs=t, min_varargs=min)` -/
+inductive MSig where
+  | noPos
+  | pos (req opt : List PyTy)
+  | var (t : PyTy) (min : Nat)
+  deriving DecidableEq, Repr, Inhabited
+
 /-- `isinstance(v, t)` — `bool` is a subclass of `int` in Python -/
 def isInstance (v : Val) : PyTy → Bool
   | .object => true
